@@ -228,3 +228,1039 @@ Qed.
 End RankLaws.
 
 End Quantile.
+
+(** ====================================================================== generic list helpers *)
+Fixpoint scanl {A B} (f : A -> B -> A) (a : A) (l : list B) : list A :=
+  match l with [] => [] | x :: t => f a x :: scanl f (f a x) t end.
+
+Lemma scanl_length {A B} (f : A -> B -> A) l : forall a, length (scanl f a l) = length l.
+Proof. induction l as [|x t IH]; intros a; simpl; [reflexivity | rewrite IH; reflexivity]. Qed.
+
+Lemma scanl_snoc {A B} (f : A -> B -> A) l x : forall a,
+  scanl f a (l ++ [x]) = scanl f a l ++ [f (fold_left f l a) x].
+Proof. induction l as [|y t IH]; intros a; simpl; [reflexivity | rewrite IH; reflexivity]. Qed.
+
+Lemma last_cons_dflt {A} (l : list A) : forall x d, last (x :: l) d = last l x.
+Proof.
+  induction l as [|y l' IH]; intros x d; [reflexivity|].
+  change (last (x :: y :: l') d) with (last (y :: l') d). rewrite (IH y d), (IH y x). reflexivity.
+Qed.
+
+Lemma last_scanl {A B} (f : A -> B -> A) l : forall a, last (scanl f a l) a = fold_left f l a.
+Proof.
+  induction l as [|y t IH]; intros a; [reflexivity|].
+  simpl scanl. simpl fold_left. rewrite last_cons_dflt. apply IH.
+Qed.
+
+(** length of the longest prefix / suffix all of whose elements satisfy [P] *)
+Fixpoint prefix_run {A} (P : A -> bool) (l : list A) : nat :=
+  match l with [] => O | x :: t => if P x then S (prefix_run P t) else O end.
+Definition suffix_run {A} (P : A -> bool) (l : list A) : nat := prefix_run P (rev l).
+
+Lemma suffix_run_snoc {A} (P : A -> bool) l x :
+  suffix_run P (l ++ [x]) = if P x then S (suffix_run P l) else O.
+Proof. unfold suffix_run. rewrite rev_app_distr. reflexivity. Qed.
+
+(** what the number means: the last [suffix_run P l] elements satisfy [P] and the one before them
+    (if there is one) does not *)
+Lemma prefix_run_spec {A} (P : A -> bool) l :
+  exists l2 l1, l = l2 ++ l1 /\ length l2 = prefix_run P l /\ forallb P l2 = true /\
+                match l1 with [] => True | y :: _ => P y = false end.
+Proof.
+  induction l as [|x t (l2 & l1 & E & Hl & Hall & Hnext)]; simpl.
+  - exists [], []. repeat split.
+  - destruct (P x) eqn:Ex.
+    + exists (x :: l2), l1. subst t. simpl. rewrite Ex, Hall, Hl. repeat split. exact Hnext.
+    + exists [], (x :: t). repeat split. exact Ex.
+Qed.
+
+Lemma suffix_run_spec {A} (P : A -> bool) l :
+  exists l1 l2, l = l1 ++ l2 /\ length l2 = suffix_run P l /\ forallb P l2 = true /\
+                (l1 = [] \/ exists l1' y, l1 = l1' ++ [y] /\ P y = false).
+Proof.
+  destruct (prefix_run_spec P (rev l)) as (l2 & l1 & E & Hl & Hall & Hnext).
+  exists (rev l1), (rev l2). repeat split.
+  - rewrite <- rev_app_distr, <- E, rev_involutive. reflexivity.
+  - rewrite rev_length. exact Hl.
+  - rewrite forallb_forall in *. intros y Hy. apply Hall. apply in_rev. exact Hy.
+  - destruct l1 as [|y l1']; [left; reflexivity|]. right. exists (rev l1'), y. split; [reflexivity | exact Hnext].
+Qed.
+
+(** ====================================================================== counts of a filled tree *)
+Section TreeCounts.
+Context {N : Num}.
+Local Open Scope num_scope.
+Notation F := (F N).
+Notation tree := (tree N).
+Notation point := (point N).
+
+Lemma lcounts_odflt id (t : tree) : lcounts id t = map odflt (leaf_counts id t).
+Proof. reflexivity. Qed.
+
+Lemma zadd_assoc : forall a b c, zadd (zadd a b) c = zadd a (zadd b c).
+Proof.
+  induction a as [|x a IH]; intros [|y b] [|z c]; simpl; try reflexivity.
+  rewrite IH. f_equal. lia.
+Qed.
+
+Lemma zadd_zeros_r l : zadd l (repeat 0%Z (length l)) = l.
+Proof. induction l as [|x l IH]; simpl; [reflexivity|]. rewrite IH. f_equal. lia. Qed.
+
+Lemma upper_app ax (mid : F) (a b : list point) : upper ax mid (a ++ b) = upper ax mid a ++ upper ax mid b.
+Proof. unfold upper. apply filter_app. Qed.
+Lemma lower_app ax (mid : F) (a b : list point) : lower ax mid (a ++ b) = lower ax mid a ++ lower ax mid b.
+Proof. unfold lower. apply filter_app. Qed.
+
+(** leaf membership counts are additive in the sample ... *)
+Lemma leaf_arrivals_app (t : tree) : forall a b : list point,
+  leaf_arrivals (a ++ b) t = zadd (leaf_arrivals a t) (leaf_arrivals b t).
+Proof.
+  induction t as [| c |ax mid c l IHl r IHr]; intros a b; simpl.
+  - reflexivity.
+  - rewrite len_app. reflexivity.
+  - rewrite lower_app, upper_app, IHl, IHr. symmetry. apply zadd_app.
+    rewrite !length_leaf_arrivals. reflexivity.
+Qed.
+
+Lemma leaf_arrivals_nil (t : tree) : leaf_arrivals [] t = repeat 0%Z (nleaves t).
+Proof.
+  induction t as [| c |ax mid c l IHl r IHr]; simpl; try reflexivity.
+  change (lower ax mid []) with (@nil point). change (upper ax mid []) with (@nil point).
+  rewrite IHl, IHr, repeat_app. reflexivity.
+Qed.
+
+(** ... and depend on the splits only, not on the counts stored in the tree *)
+Lemma leaf_arrivals_fill (t : tree) : forall (d d' : list point) id reset,
+  leaf_arrivals d (fill d' t id reset) = leaf_arrivals d t.
+Proof.
+  induction t as [| c |ax mid c l IHl r IHr]; intros d d' id reset; simpl; try reflexivity.
+  rewrite IHl, IHr. reflexivity.
+Qed.
+
+Lemma nleaves_fill (t : tree) : forall (d : list point) id reset, nleaves (fill d t id reset) = nleaves t.
+Proof.
+  induction t as [| c |ax mid c l IHl r IHr]; intros d id reset; simpl; try reflexivity.
+  rewrite IHl, IHr. reflexivity.
+Qed.
+
+Lemma leaves_fill_nonempty (t : tree) (d : list point) id reset : leaves t <> [] -> leaves (fill d t id reset) <> [].
+Proof.
+  intros H E. apply H. apply length_zero_iff_nil. apply length_zero_iff_nil in E.
+  rewrite length_leaves in *. rewrite nleaves_fill in E. exact E.
+Qed.
+
+Lemma leaf_counts_fill_other (t : tree) : forall (d : list point) id reset id', id' <> id ->
+  leaf_counts id' (fill d t id reset) = leaf_counts id' t.
+Proof.
+  unfold leaf_counts. induction t as [| c |ax mid c l IHl r IHr]; intros d id reset id' H; simpl.
+  - reflexivity.
+  - rewrite lookup_bump_other by exact H. reflexivity.
+  - rewrite !map_app, IHl, IHr by exact H. reflexivity.
+Qed.
+
+Definition fillstep1 (t : tree) (x : point) : tree := fill [x] t 1 false.
+
+(** filling samples one at a time (accumulating) adds their leaf membership counts *)
+Lemma fold_fill_counts : forall (l : list point) (t : tree),
+  lcounts 1 (fold_left fillstep1 l t) = zadd (lcounts 1 t) (leaf_arrivals l t).
+Proof.
+  induction l as [|x l IH]; intros t.
+  - simpl. rewrite leaf_arrivals_nil, lcounts_odflt.
+    replace (nleaves t) with (length (map odflt (leaf_counts 1 t))).
+    + symmetry. apply zadd_zeros_r.
+    + unfold leaf_counts. rewrite !map_length. apply length_leaves.
+  - simpl fold_left. rewrite IH. unfold fillstep1 at 1 2.
+    rewrite leaf_arrivals_fill, !lcounts_odflt, leaf_counts_fill_acc, zadd_assoc.
+    change (x :: l) with ([x] ++ l). rewrite leaf_arrivals_app. reflexivity.
+Qed.
+
+Lemma fold_fill_counts0 : forall (l : list point) (t : tree),
+  leaf_counts 0 (fold_left fillstep1 l t) = leaf_counts 0 t.
+Proof.
+  induction l as [|x l IH]; intros t; [reflexivity|].
+  simpl. rewrite IH. apply leaf_counts_fill_other. discriminate.
+Qed.
+
+Lemma fold_fill_has_id id : forall (l : list point) (t : tree), has_id id t -> has_id id (fold_left fillstep1 l t).
+Proof.
+  induction l as [|x l IH]; intros t H; [exact H|]. simpl. apply IH. apply fill_has_id_other. exact H.
+Qed.
+
+Lemma fold_fill_has_id1 : forall (l : list point) (t : tree), l <> [] -> has_id 1 (fold_left fillstep1 l t).
+Proof.
+  intros [|x l] t H; [congruence|]. simpl. apply fold_fill_has_id. apply fill_has_id.
+Qed.
+
+Lemma fold_fill_leaves : forall (l : list point) (t : tree), leaves t <> [] -> leaves (fold_left fillstep1 l t) <> [].
+Proof.
+  induction l as [|x l IH]; intros t H; [exact H|]. simpl. apply IH. apply leaves_fill_nonempty. exact H.
+Qed.
+
+Lemma all_some_app {A} (a b : list (option A)) :
+  all_some (a ++ b) = match all_some a, all_some b with Some x, Some y => Some (x ++ y) | _, _ => None end.
+Proof.
+  induction a as [|[v|] a IH]; simpl.
+  - destruct (all_some b); reflexivity.
+  - rewrite IH. destruct (all_some a), (all_some b); reflexivity.
+  - reflexivity.
+Qed.
+
+Lemma all_some_has_id id (t : tree) : has_id id t -> all_some (leaf_counts id t) = Some (lcounts id t).
+Proof.
+  unfold lcounts, leaf_counts. induction t as [| c |ax mid c l IHl r IHr]; simpl.
+  - reflexivity.
+  - intros H. destruct (lookup id c); [reflexivity | congruence].
+  - intros (_ & Hl & Hr). rewrite !map_app, all_some_app, (IHl Hl), (IHr Hr). reflexivity.
+Qed.
+
+(** kl_distance in terms of integer leaf counts *)
+Lemma kl_distance_counts (kl : list F -> list F -> F) (t : tree) id1 id2 :
+  leaves t <> [] -> has_id id1 t -> has_id id2 t ->
+  kl_distance kl t id1 id2 = Some (kl (distn (lcounts id1 t)) (distn (lcounts id2 t))).
+Proof.
+  intros Hl H1 H2. unfold kl_distance, kl_args.
+  destruct (leaves t) eqn:E; [congruence|].
+  rewrite (all_some_has_id id1 t H1), (all_some_has_id id2 t H2). reflexivity.
+Qed.
+
+(** a tree that comes out of [build_node] carries counts for id 0 ("build") only *)
+Section Built.
+Variable m : Z.
+Variable cub : Z.
+Variable mins : list F.
+
+Lemma build_node_ids : forall fuel (data : list point) depth,
+  let t := fst (build_node m cub mins fuel data depth) in
+  has_id 0 t /\ forall id, id <> 0%Z -> lcounts id t = repeat 0%Z (nleaves t).
+Proof.
+  induction fuel as [|fuel IH]; intros data depth.
+  - destruct data as [|q d]; [rewrite build_node_nil; simpl; split; [exact I | reflexivity]|].
+    destruct (Z.eq_dec m 0) as [Em|Em]; [rewrite build_node_nocols by exact Em; simpl; split; [exact I | reflexivity]|].
+    destruct (stop_rule m cub mins (q :: d) depth) eqn:Es.
+    + rewrite build_node_stop by (try discriminate; assumption). simpl. split; [discriminate|].
+      intros id Hid. unfold lcounts, leaf_counts. simpl. destruct id; [congruence | reflexivity | reflexivity].
+    + rewrite build_node_O by (try discriminate; assumption). simpl. split; [exact I | reflexivity].
+  - destruct data as [|q d]; [rewrite build_node_nil; simpl; split; [exact I | reflexivity]|].
+    destruct (Z.eq_dec m 0) as [Em|Em]; [rewrite build_node_nocols by exact Em; simpl; split; [exact I | reflexivity]|].
+    destruct (stop_rule m cub mins (q :: d) depth) eqn:Es.
+    + rewrite build_node_stop by (try discriminate; assumption). simpl. split; [discriminate|].
+      intros id Hid. unfold lcounts, leaf_counts. simpl. destruct id; [congruence | reflexivity | reflexivity].
+    + rewrite build_node_S by (try discriminate; assumption). cbv zeta.
+      pose proof (IH (lower (axis_of m depth) (midpoint (axis_of m depth) (q :: d)) (q :: d)) (depth + 1)%Z) as I1.
+      pose proof (IH (upper (axis_of m depth) (midpoint (axis_of m depth) (q :: d)) (q :: d)) (depth + 1)%Z) as I2.
+      destruct (build_node m cub mins fuel (lower _ _ _) _) as [l fl].
+      destruct (build_node m cub mins fuel (upper _ _ _) _) as [r fr].
+      simpl in *. destruct I1 as [A1 B1], I2 as [A2 B2]. split.
+      * repeat split; try assumption. discriminate.
+      * intros id Hid. specialize (B1 id Hid). specialize (B2 id Hid).
+        unfold lcounts, leaf_counts in *. simpl. rewrite !map_app, B1, B2, repeat_app. reflexivity.
+Qed.
+End Built.
+
+Lemma kbuild_ids trunc (p : kdq_params N) (data : list point) :
+  let t := fst (kbuild trunc p data) in
+  has_id 0 t /\ lcounts 1 t = repeat 0%Z (nleaves t).
+Proof.
+  unfold kbuild, build.
+  destruct (build_node_ids (k_m p) (k_cub p) (min_sizes trunc (k_clb p) (k_m p) data) (kfuel data) data 0) as [A B].
+  split; [exact A | apply B; discriminate].
+Qed.
+
+(** the reference tree, then [l] test samples filled one at a time: the "build" counts are those of
+    the reference, the "test" counts are the leaf membership counts of [l], and the divergence is
+    the oracle applied to the two corrected distributions *)
+Lemma filled_reference (kl : list F -> list F -> F) trunc (p : kdq_params N) (ref l : list point) :
+  let t0 := fst (kbuild trunc p ref) in
+  let t := fold_left fillstep1 l t0 in
+  lcounts 0 t = lcounts 0 t0 /\ lcounts 1 t = leaf_arrivals l t0 /\
+  (l <> [] -> leaves t0 <> [] ->
+   divergence kl t = Some (kl (distn (lcounts 0 t0)) (distn (leaf_arrivals l t0)))).
+Proof.
+  intros t0 t. destruct (kbuild_ids trunc p ref) as [H0 H1]. fold t0 in H0, H1.
+  assert (E0 : lcounts 0 t = lcounts 0 t0) by (unfold lcounts, t; rewrite fold_fill_counts0; reflexivity).
+  assert (E1 : lcounts 1 t = leaf_arrivals l t0).
+  { unfold t. rewrite fold_fill_counts, H1, <- (length_leaf_arrivals l t0). apply zadd_zeros. }
+  split; [exact E0|]. split; [exact E1|]. intros Hl Hne.
+  unfold divergence. rewrite kl_distance_counts.
+  - rewrite E0, E1. reflexivity.
+  - apply fold_fill_leaves. exact Hne.
+  - apply fold_fill_has_id. exact H0.
+  - apply fold_fill_has_id1. exact Hl.
+Qed.
+
+End TreeCounts.
+
+(** ====================================================================== KdqTreeStreaming *)
+Ltac klia := lia.
+
+Section Stream.
+Context {N : Num}.
+Local Open Scope num_scope.
+Notation F := (F N).
+Notation tree := (tree N).
+Notation point := (point N).
+Variable trunc : F -> F.
+Variable rint : F -> Z.
+Variable kl : list F -> list F -> F.
+Variable p : kdq_params N.
+
+Notation upd := (ks_update trunc rint kl p).
+Notation evl := (ks_evaluate trunc rint kl p).
+Notation states := (ks_states trunc rint kl p).
+Notation trace := (ks_trace trunc rint kl p).
+Notation runs := (ks_run trunc rint kl p).
+
+(** ---------- counters ---------- *)
+Lemma evl_total s x b : s_total (evl s x b) = s_total s.
+Proof.
+  unfold ks_evaluate, ks_set_reference. destruct (s_tree s).
+  - destruct (k_w p <=? s_tsize s + 1)%Z; [destruct (above _ _)|]; reflexivity.
+  - destruct (len (s_ref s ++ [x]) =? k_w p)%Z; reflexivity.
+Qed.
+
+Lemma upd_total s x : s_total (upd s x) = (s_total s + 1)%Z.
+Proof. unfold ks_update. rewrite evl_total. destruct (is_drift (s_ds s)); reflexivity. Qed.
+
+Lemma runs_total : forall xs s, s_total (runs s xs) = (s_total s + len xs)%Z.
+Proof.
+  induction xs as [|x xs IH]; intros s; unfold len; simpl; [klia|].
+  unfold ks_run in *. simpl. rewrite IH, upd_total. unfold len. klia.
+Qed.
+
+(** ---------- shifting the total: the machine never reads it ---------- *)
+Definition ks_shift (k : Z) (s : kstream N) : kstream N :=
+  mk_ks (s_total s + k) (s_since s) (s_ds s) (s_ref s) (s_tree s) (s_tsize s) (s_crit s) (s_tdist s)
+        (s_counter s) (s_oof s) (s_bootq s).
+
+Lemma evl_shift k s x b : evl (ks_shift k s) x b = ks_shift k (evl s x b).
+Proof.
+  unfold ks_evaluate, ks_set_reference, ks_shift. simpl. destruct (s_tree s).
+  - destruct (k_w p <=? s_tsize s + 1)%Z; [destruct (above _ _)|]; reflexivity.
+  - destruct (len (s_ref s ++ [x]) =? k_w p)%Z; reflexivity.
+Qed.
+
+Lemma upd_shift k s x : upd (ks_shift k s) x = ks_shift k (upd s x).
+Proof.
+  unfold ks_update. rewrite <- evl_shift. f_equal.
+  unfold ks_shift, ks_reset. simpl. destruct (is_drift (s_ds s)); simpl; f_equal; klia.
+Qed.
+
+Lemma states_shift k : forall xs s, states (ks_shift k s) xs = map (ks_shift k) (states s xs).
+Proof. induction xs as [|x xs IH]; intros s; simpl; [reflexivity|]. rewrite upd_shift, IH. reflexivity. Qed.
+
+Lemma upd_after_drift s x : is_drift (s_ds s) = true -> upd s x = upd (ks_reset s) x.
+Proof. intros H. unfold ks_update. rewrite H. reflexivity. Qed.
+
+Lemma reset_is_shifted_init s : ks_reset s = ks_shift (s_total s) ks_init.
+Proof. reflexivity. Qed.
+
+(** clean slate, on whole states: after a reported drift every later state is the state of a newly
+    constructed detector fed the later inputs only, with the total shifted *)
+Lemma states_clean_slate s xs : is_drift (s_ds s) = true ->
+  states s xs = map (ks_shift (s_total s)) (states ks_init xs).
+Proof.
+  intros H. destruct xs as [|x xs]; [reflexivity|]. simpl.
+  rewrite (upd_after_drift s x H), reset_is_shifted_init, upd_shift, states_shift. reflexivity.
+Qed.
+
+Lemma trace_states : forall xs s, trace s xs = map ks_observe (states s xs).
+Proof. induction xs as [|x xs IH]; intros s; simpl; [reflexivity | rewrite IH; reflexivity]. Qed.
+
+Lemma observe_shift k s : ks_observe (ks_shift k s) = shift_obs k (ks_observe s).
+Proof. reflexivity. Qed.
+
+Lemma trace_clean_slate s xs : is_drift (s_ds s) = true ->
+  trace s xs = map (shift_obs (s_total s)) (trace ks_init xs).
+Proof.
+  intros H. rewrite !trace_states, (states_clean_slate s xs H), !map_map.
+  apply map_ext. intros a. apply observe_shift.
+Qed.
+
+(** ---------- the current epoch as a function of its inputs ---------- *)
+Definition kw : nat := Z.to_nat (k_w p).
+Definition dflt_sx : sx N := ([], []).
+
+Definition ep_ref (h : list (sx N)) : list point := firstn kw (map fst h).
+Definition ep_test (h : list (sx N)) : list point := skipn kw (map fst h).
+Definition ep_build (h : list (sx N)) : tree * bool := kbuild trunc p (ep_ref h).
+Definition ep_t0 (h : list (sx N)) : tree := fst (ep_build h).
+Definition ep_trees (h : list (sx N)) : list tree := scanl fillstep1 (ep_t0 h) (ep_test h).
+Definition ep_crit (h : list (sx N)) : option F :=
+  Some (critical_value rint (k_alpha p) (snd (nth (kw - 1) h dflt_sx))).
+(** divergences of the evaluated samples: from the [window_size]-th test sample on *)
+Definition ep_evald (h : list (sx N)) : list (option F) :=
+  skipn (kw - 1) (map (divergence kl) (ep_trees h)).
+Definition ep_cnt (h : list (sx N)) : Z := Z.of_nat (suffix_run (above (ep_crit h)) (ep_evald h)).
+
+Definition spec_stream (tot : Z) (h : list (sx N)) : kstream N :=
+  if (length h <? kw)%nat
+  then mk_ks tot (len h) DNone (map fst h) None 0 None None 0 false None
+  else mk_ks tot (len (ep_test h))
+             (if (1 <=? ep_cnt h)%Z && (k_pers p * fofZ (k_w p) <? fofZ (ep_cnt h)) then DDrift else DNone)
+             [] (Some (last (ep_trees h) (ep_t0 h))) (len (ep_test h)) (ep_crit h)
+             (last (ep_evald h) None) (ep_cnt h) (snd (ep_build h))
+             (Some (lcounts 0 (ep_t0 h), k_w p)).
+
+Hypothesis w_pos : (1 <= k_w p)%Z.
+
+Lemma kw_pos : (1 <= kw)%nat.
+Proof. unfold kw. klia. Qed.
+Lemma kw_Z : k_w p = Z.of_nat kw.
+Proof. unfold kw. klia. Qed.
+
+Lemma spec_total tot h : s_total (spec_stream tot h) = tot.
+Proof. unfold spec_stream. destruct (length h <? kw)%nat; reflexivity. Qed.
+
+Lemma spec_nil tot : spec_stream tot [] = mk_ks tot 0 DNone [] None 0 None None 0 false None.
+Proof.
+  unfold spec_stream. pose proof kw_pos. destruct (Nat.ltb_spec (length (@nil (sx N))) kw) as [_|H0]; [reflexivity|].
+  simpl in H0. klia.
+Qed.
+
+Lemma init_spec : ks_init = spec_stream 0 [].
+Proof. rewrite spec_nil. reflexivity. Qed.
+
+Lemma reset_spec tot h : ks_reset (spec_stream tot h) = spec_stream tot [].
+Proof.
+  unfold ks_reset. rewrite spec_total. unfold spec_stream at 1.
+  pose proof kw_pos. destruct (Nat.ltb_spec (length (@nil (sx N))) kw) as [_|H0]; [reflexivity|].
+  simpl in H0. klia.
+Qed.
+
+(** snoc lemmas, reference window complete *)
+Section Snoc.
+Variable h : list (sx N).
+Variable x : sx N.
+Hypothesis full : (kw <= length h)%nat.
+
+Lemma ep_ref_snoc : ep_ref (h ++ [x]) = ep_ref h.
+Proof.
+  unfold ep_ref. rewrite map_app, firstn_app, map_length.
+  replace (kw - length h)%nat with O by klia. simpl. apply app_nil_r.
+Qed.
+Lemma ep_test_snoc : ep_test (h ++ [x]) = ep_test h ++ [fst x].
+Proof.
+  unfold ep_test. rewrite map_app, skipn_app, map_length.
+  replace (kw - length h)%nat with O by klia. reflexivity.
+Qed.
+Lemma ep_t0_snoc : ep_t0 (h ++ [x]) = ep_t0 h.
+Proof. unfold ep_t0, ep_build. rewrite ep_ref_snoc. reflexivity. Qed.
+Lemma ep_build_snoc : ep_build (h ++ [x]) = ep_build h.
+Proof. unfold ep_build. rewrite ep_ref_snoc. reflexivity. Qed.
+Lemma ep_crit_snoc : ep_crit (h ++ [x]) = ep_crit h.
+Proof. unfold ep_crit. pose proof kw_pos. rewrite app_nth1 by klia. reflexivity. Qed.
+Lemma ep_trees_snoc :
+  ep_trees (h ++ [x]) = ep_trees h ++ [fillstep1 (last (ep_trees h) (ep_t0 h)) (fst x)].
+Proof. unfold ep_trees. rewrite ep_test_snoc, ep_t0_snoc, scanl_snoc, last_scanl. reflexivity. Qed.
+Lemma ep_trees_length : length (ep_trees h) = length (ep_test h).
+Proof. unfold ep_trees. apply scanl_length. Qed.
+Lemma ep_test_length : length (ep_test h) = (length h - kw)%nat.
+Proof. unfold ep_test. rewrite skipn_length, map_length. reflexivity. Qed.
+
+(** the new sample is evaluated: at least [window_size] test samples *)
+Lemma ep_evald_snoc_eval : (kw <= length (ep_test h) + 1)%nat ->
+  ep_evald (h ++ [x]) = ep_evald h ++ [divergence kl (fillstep1 (last (ep_trees h) (ep_t0 h)) (fst x))].
+Proof.
+  intros H. unfold ep_evald. rewrite ep_trees_snoc, map_app, skipn_app, map_length, ep_trees_length.
+  replace (kw - 1 - length (ep_test h))%nat with O by klia. reflexivity.
+Qed.
+Lemma ep_evald_snoc_skip : (length (ep_test h) + 1 < kw)%nat ->
+  ep_evald (h ++ [x]) = [] /\ ep_evald h = [].
+Proof.
+  intros H. unfold ep_evald. split; apply skipn_all2.
+  - rewrite ep_trees_snoc, map_length, app_length, ep_trees_length. simpl. klia.
+  - rewrite map_length, ep_trees_length. klia.
+Qed.
+End Snoc.
+
+(** one update of a state in closed form gives the closed form of the extended epoch *)
+Lemma spec_step_nodrift tot h x : is_drift (s_ds (spec_stream tot h)) = false ->
+  upd (spec_stream tot h) x = spec_stream (tot + 1) (h ++ [x]).
+Proof.
+  intros Hnd. pose proof kw_pos as Hp. pose proof kw_Z as HZ.
+  unfold ks_update. rewrite Hnd.
+  unfold spec_stream in *. rewrite app_length. simpl length.
+  destruct (Nat.ltb_spec (length h) kw) as [Hlt|Hge].
+  - (* still collecting the reference window *)
+    unfold ks_evaluate. cbn [s_tree s_ref s_total s_since s_ds s_tsize s_crit s_tdist s_counter s_oof s_bootq].
+    unfold len. rewrite app_length, map_length. simpl length.
+    destruct (Z.eqb_spec (Z.of_nat (length h + 1)) (k_w p)) as [E|E].
+    + assert (Hl : (length h + 1 = kw)%nat) by klia.
+      destruct (Nat.ltb_spec (length h + 1) kw) as [?|_]; [klia|].
+      unfold ks_set_reference, ks_reset. cbn [s_total s_since s_ds s_tsize s_tdist s_counter].
+      assert (Eref : ep_ref (h ++ [x]) = map fst h ++ [fst x]).
+      { unfold ep_ref. rewrite map_app. apply firstn_all2. rewrite app_length, map_length. simpl. klia. }
+      assert (Etest : ep_test (h ++ [x]) = []).
+      { unfold ep_test. apply skipn_all2. rewrite map_length, app_length. simpl. klia. }
+      assert (Etrees : ep_trees (h ++ [x]) = []) by (unfold ep_trees; rewrite Etest; reflexivity).
+      assert (Eev : ep_evald (h ++ [x]) = []).
+      { unfold ep_evald. rewrite Etrees. simpl. destruct (kw - 1)%nat; reflexivity. }
+      assert (Ecnt : ep_cnt (h ++ [x]) = 0%Z) by (unfold ep_cnt; rewrite Eev; reflexivity).
+      assert (Ecrit : ep_crit (h ++ [x]) = Some (critical_value rint (k_alpha p) (snd x))).
+      { unfold ep_crit. rewrite app_nth2 by klia. replace (kw - 1 - length h)%nat with O by klia. reflexivity. }
+      rewrite Etest, Etrees, Eev, Ecnt, Ecrit. unfold ep_t0, ep_build. rewrite Eref. reflexivity.
+    + destruct (Nat.ltb_spec (length h + 1) kw) as [_|?]; [|klia].
+      rewrite map_app. simpl map. f_equal. rewrite ?app_length. simpl length. klia.
+  - (* the tree exists: the sample joins the test window *)
+    destruct (Nat.ltb_spec (length h + 1) kw) as [?|_]; [klia|].
+    assert (Hds : (if (1 <=? ep_cnt h)%Z && (k_pers p * fofZ (k_w p) <? fofZ (ep_cnt h)) then DDrift else DNone) = DNone).
+    { cbn [s_ds] in Hnd. destruct ((1 <=? ep_cnt h)%Z && (k_pers p * fofZ (k_w p) <? fofZ (ep_cnt h))); [discriminate | reflexivity]. }
+    rewrite Hds.
+    unfold ks_evaluate. cbn [s_tree s_ref s_total s_since s_ds s_tsize s_crit s_tdist s_counter s_oof s_bootq].
+    rewrite (ep_test_snoc h x Hge), (ep_t0_snoc h x Hge), (ep_build_snoc h x Hge), (ep_crit_snoc h x Hge).
+    rewrite (ep_trees_snoc h x Hge), last_last.
+    change (fill [fst x] (last (ep_trees h) (ep_t0 h)) 1 false) with (fillstep1 (last (ep_trees h) (ep_t0 h)) (fst x)).
+    set (t' := fillstep1 (last (ep_trees h) (ep_t0 h)) (fst x)).
+    assert (Elen : len (ep_test h ++ [fst x]) = (len (ep_test h) + 1)%Z).
+    { unfold len. rewrite app_length. simpl. klia. }
+    rewrite Elen.
+    destruct (Z.leb_spec (k_w p) (len (ep_test h) + 1)) as [Hev|Hev].
+    + assert (Hev' : (kw <= length (ep_test h) + 1)%nat) by (unfold len in Hev; klia).
+      assert (Ecnt : ep_cnt (h ++ [x]) =
+                     if above (ep_crit h) (divergence kl t') then (ep_cnt h + 1)%Z else 0%Z).
+      { unfold ep_cnt. rewrite (ep_evald_snoc_eval h x Hge Hev'), (ep_crit_snoc h x Hge), suffix_run_snoc.
+        fold t'. destruct (above (ep_crit h) (divergence kl t')); [klia | reflexivity]. }
+      rewrite Ecnt, (ep_evald_snoc_eval h x Hge Hev'), last_last. fold t'.
+      destruct (above (ep_crit h) (divergence kl t')).
+      * assert (H1 : (1 <=? ep_cnt h + 1)%Z = true) by (unfold ep_cnt; klia).
+        rewrite H1. cbn [andb]. reflexivity.
+      * reflexivity.
+    + assert (Hev' : (length (ep_test h) + 1 < kw)%nat) by (unfold len in Hev; klia).
+      destruct (ep_evald_snoc_skip h x Hge Hev') as [E1 E2].
+      assert (Ecnt : ep_cnt (h ++ [x]) = 0%Z /\ ep_cnt h = 0%Z).
+      { unfold ep_cnt. rewrite (ep_crit_snoc h x Hge), E1, E2. split; reflexivity. }
+      destruct Ecnt as [Ec1 Ec2]. rewrite Ec1, Ec2, E1, E2. reflexivity.
+Qed.
+
+Lemma spec_step tot h x :
+  upd (spec_stream tot h) x =
+  spec_stream (tot + 1) (if is_drift (s_ds (spec_stream tot h)) then [x] else h ++ [x]).
+Proof.
+  destruct (is_drift (s_ds (spec_stream tot h))) eqn:Hd.
+  - rewrite (upd_after_drift _ x Hd), reset_spec.
+    change [x] with ([] ++ [x]). apply spec_step_nodrift.
+    rewrite spec_nil. reflexivity.
+  - apply spec_step_nodrift. exact Hd.
+Qed.
+
+(** the inputs of the current epoch: everything since the update that followed the last drift *)
+Fixpoint epoch_hist (s : kstream N) (h : list (sx N)) (xs : list (sx N)) : list (sx N) :=
+  match xs with
+  | [] => h
+  | x :: t => epoch_hist (upd s x) (if is_drift (s_ds s) then [x] else h ++ [x]) t
+  end.
+
+Lemma closed_form_from : forall xs s h, s = spec_stream (s_total s) h ->
+  runs s xs = spec_stream (s_total s + len xs) (epoch_hist s h xs).
+Proof.
+  induction xs as [|x xs IH]; intros s h Hs.
+  - unfold len. simpl. rewrite Z.add_0_r. exact Hs.
+  - unfold ks_run. simpl fold_left. fold (runs (upd s x) xs).
+    assert (Hstep : upd s x = spec_stream (s_total (upd s x)) (if is_drift (s_ds s) then [x] else h ++ [x])).
+    { rewrite upd_total. rewrite Hs at 1. rewrite spec_step. rewrite <- Hs. reflexivity. }
+    rewrite (IH _ _ Hstep), upd_total. simpl epoch_hist. f_equal. unfold len. simpl length. klia.
+Qed.
+
+(** every reachable state is the closed form of its epoch *)
+Lemma closed_form xs :
+  runs ks_init xs = spec_stream (len xs) (epoch_hist ks_init [] xs).
+Proof. rewrite (closed_form_from xs ks_init []); [reflexivity | apply init_spec]. Qed.
+
+(** ---------- consequences of the closed form ---------- *)
+Lemma prefix_run_le {A} (P : A -> bool) l : (prefix_run P l <= length l)%nat.
+Proof. induction l as [|x t IH]; simpl; [lia|]. destruct (P x); lia. Qed.
+Lemma suffix_run_le {A} (P : A -> bool) l : (suffix_run P l <= length l)%nat.
+Proof. unfold suffix_run. rewrite <- rev_length. apply prefix_run_le. Qed.
+
+Lemma ep_evald_length h : length (ep_evald h) = (length (ep_test h) - (kw - 1))%nat.
+Proof. unfold ep_evald, ep_trees. rewrite skipn_length, map_length, scanl_length. reflexivity. Qed.
+
+Lemma ep_cnt_bound h : (0 <= ep_cnt h <= Z.of_nat (length (ep_test h) - (kw - 1)))%Z.
+Proof.
+  unfold ep_cnt. pose proof (suffix_run_le (above (ep_crit h)) (ep_evald h)) as H.
+  rewrite ep_evald_length in H. klia.
+Qed.
+
+Lemma epoch_hist_length : forall xs s h, (length (epoch_hist s h xs) <= length h + length xs)%nat.
+Proof.
+  induction xs as [|x xs IH]; intros s h; simpl; [klia|].
+  specialize (IH (upd s x) (if is_drift (s_ds s) then [x] else h ++ [x])).
+  destruct (is_drift (s_ds s)); [simpl in IH | rewrite app_length in IH; simpl in IH]; klia.
+Qed.
+
+(** the drift state of a closed-form state *)
+Lemma spec_ds tot h :
+  s_ds (spec_stream tot h) = DDrift <->
+  (1 <= s_counter (spec_stream tot h))%Z /\
+  fltb (k_pers p * fofZ (k_w p)) (fofZ (s_counter (spec_stream tot h))) = true.
+Proof.
+  unfold spec_stream. destruct (length h <? kw)%nat; cbn [s_ds s_counter].
+  - split; [discriminate | intros [H _]; klia].
+  - destruct (Z.leb_spec 1 (ep_cnt h)) as [H1|H1]; cbn [andb].
+    + destruct (k_pers p * fofZ (k_w p) <? fofZ (ep_cnt h)); split; try discriminate; try tauto.
+      intros [_ H]; discriminate.
+    + split; [discriminate | intros [H _]; klia].
+Qed.
+
+Lemma spec_not_warn tot h : s_ds (spec_stream tot h) <> DWarn.
+Proof.
+  unfold spec_stream. destruct (length h <? kw)%nat; cbn [s_ds]; [discriminate|].
+  destruct ((1 <=? ep_cnt h)%Z && (k_pers p * fofZ (k_w p) <? fofZ (ep_cnt h))); discriminate.
+Qed.
+
+(** no alarm before two full windows of the epoch *)
+Lemma spec_silent tot h : s_ds (spec_stream tot h) = DDrift -> (2 * kw <= length h)%nat.
+Proof.
+  intros H. apply spec_ds in H. destruct H as [H _]. revert H.
+  unfold spec_stream. destruct (Nat.ltb_spec (length h) kw) as [Hlt|Hge]; cbn [s_counter]; [klia|].
+  pose proof (ep_cnt_bound h) as B. rewrite (ep_test_length h) in B. klia.
+Qed.
+
+Lemma spec_counter tot h :
+  s_counter (spec_stream tot h) = Z.of_nat (suffix_run (above (ep_crit h)) (ep_evald h)).
+Proof.
+  unfold spec_stream. destruct (Nat.ltb_spec (length h) kw) as [Hlt|Hge]; cbn [s_counter]; [|reflexivity].
+  assert (E : ep_evald h = []).
+  { unfold ep_evald, ep_trees, ep_test. rewrite (@skipn_all2 _ kw (map fst h)) by (rewrite map_length; klia). simpl.
+    destruct (kw - 1)%nat; reflexivity. }
+  rewrite E. reflexivity.
+Qed.
+
+Lemma spec_since tot h :
+  s_since (spec_stream tot h) = if (length h <? kw)%nat then len h else (len h - k_w p)%Z.
+Proof.
+  unfold spec_stream. destruct (Nat.ltb_spec (length h) kw) as [Hlt|Hge]; cbn [s_since]; [reflexivity|].
+  unfold len. rewrite (ep_test_length h). pose proof kw_Z. klia.
+Qed.
+
+(** one update: where samples_since_reset goes *)
+Lemma upd_since s x :
+  s_since (upd s x) =
+  let s0 := if is_drift (s_ds s) then ks_reset s else s in
+  match s_tree s0 with
+  | None => if (len (s_ref s0) + 1 =? k_w p)%Z then 0%Z else (s_since s0 + 1)%Z
+  | Some _ => (s_since s0 + 1)%Z
+  end.
+Proof.
+  unfold ks_update. cbv zeta. set (s0 := if is_drift (s_ds s) then ks_reset s else s).
+  unfold ks_evaluate. cbn [s_tree s_ref s_since s_tsize].
+  destruct (s_tree s0).
+  - destruct (k_w p <=? s_tsize s0 + 1)%Z; [destruct (above _ _)|]; reflexivity.
+  - rewrite len_app. change (len [fst x]) with 1%Z.
+    destruct (len (s_ref s0) + 1 =? k_w p)%Z; reflexivity.
+Qed.
+
+Lemma scanl_nth {A B} (f : A -> B -> A) (d : A) : forall l a i, (i < length l)%nat ->
+  nth i (scanl f a l) d = fold_left f (firstn (S i) l) a.
+Proof.
+  induction l as [|x l IH]; intros a i Hi; simpl in Hi; [klia|].
+  destruct i as [|i]; [reflexivity|]. simpl scanl. simpl nth. rewrite IH by klia. reflexivity.
+Qed.
+
+(** the closed form, field by field *)
+Lemma closed_form_fields xs :
+  let s := runs ks_init xs in
+  let h := epoch_hist ks_init [] xs in
+  s_total s = len xs /\
+  ((length h < kw)%nat ->
+     s_tree s = None /\ s_ref s = map fst h /\ s_since s = len h /\ s_ds s = DNone /\
+     s_counter s = 0%Z /\ s_tsize s = 0%Z /\ s_crit s = None /\ s_tdist s = None) /\
+  ((kw <= length h)%nat ->
+     let t0 := fst (kbuild trunc p (firstn kw (map fst h))) in
+     let test := skipn kw (map fst h) in
+     s_tree s = Some (fold_left fillstep1 test t0) /\ s_ref s = [] /\
+     s_tsize s = len test /\ s_since s = len test /\
+     s_crit s = Some (critical_value rint (k_alpha p) (snd (nth (kw - 1) h dflt_sx))) /\
+     s_bootq s = Some (lcounts 0 t0, k_w p) /\
+     s_oof s = snd (kbuild trunc p (firstn kw (map fst h))) /\
+     s_tdist s = last (ep_evald h) None).
+Proof.
+  cbv zeta. rewrite closed_form. set (h := epoch_hist ks_init [] xs).
+  split; [apply spec_total|]. unfold spec_stream. split; intros H.
+  - destruct (Nat.ltb_spec (length h) kw) as [_|?]; [|klia]. cbn. repeat split.
+  - destruct (Nat.ltb_spec (length h) kw) as [?|_]; [klia|]. cbn.
+    unfold ep_trees. rewrite last_scanl. repeat split.
+Qed.
+
+(** the epoch is a suffix of the inputs: everything (there was no drift), or what came after the
+    last update that reported a drift *)
+Lemma epoch_hist_suffix : forall xs s h,
+  epoch_hist s h xs = h ++ xs \/
+  exists pre, xs = pre ++ epoch_hist s h xs /\ is_drift (s_ds (runs s pre)) = true.
+Proof.
+  induction xs as [|x xs IH]; intros s h; simpl.
+  - left. rewrite app_nil_r. reflexivity.
+  - destruct (IH (upd s x) (if is_drift (s_ds s) then [x] else h ++ [x])) as [E|(pre & E & Hd)].
+    + destruct (is_drift (s_ds s)) eqn:Ed.
+      * right. exists []. split; [rewrite E; reflexivity | exact Ed].
+      * left. rewrite E, <- app_assoc. reflexivity.
+    + right. exists (x :: pre). split; [simpl; f_equal; exact E | exact Hd].
+Qed.
+
+End Stream.
+
+(** ====================================================================== KdqTreeBatch *)
+Section Batch.
+Context {N : Num}.
+Local Open Scope num_scope.
+Notation F := (F N).
+Notation tree := (tree N).
+Notation point := (point N).
+Variable trunc : F -> F.
+Variable rint : F -> Z.
+Variable kl : list F -> list F -> F.
+Variable p : kdq_params N.
+
+Notation isr := (kb_inner_set_reference trunc rint p).
+Notation bupd := (kb_update trunc rint kl p).
+Notation bapp := (kb_apply trunc rint kl p).
+Notation brun := (kb_run trunc rint kl p).
+Notation btrace := (kb_trace trunc rint kl p).
+Notation bstates := (kb_states trunc rint kl p).
+Notation crit_of B := (Some (critical_value rint (k_alpha p) B)).
+
+(** ---------- fill with reset=True forgets earlier fills ---------- *)
+Lemma set_count_absorb id v v' c : set_count id v (set_count id v' c) = set_count id v c.
+Proof.
+  induction c as [|[k w] c IH]; simpl.
+  - rewrite Z.eqb_refl. reflexivity.
+  - destruct (Z.eqb_spec k id) as [E|E]; simpl.
+    + destruct (Z.eqb_spec k id); [reflexivity | contradiction].
+    + destruct (Z.eqb_spec k id); [contradiction|]. rewrite IH. reflexivity.
+Qed.
+
+Lemma bump_reset_set id k c : bump id true k c = set_count id k c.
+Proof. unfold bump. destruct (lookup id c); reflexivity. Qed.
+
+Lemma fill_reset_absorb (t : tree) : forall (x y : list point) id,
+  fill x (fill y t id true) id true = fill x t id true.
+Proof.
+  induction t as [| c |ax mid c l IHl r IHr]; intros x y id; simpl.
+  - reflexivity.
+  - rewrite !bump_reset_set, set_count_absorb. reflexivity.
+  - rewrite !bump_reset_set, set_count_absorb, IHl, IHr. reflexivity.
+Qed.
+
+(** the tree is the reference tree, possibly holding the counts of the last batch *)
+Definition based_on (t0 t : tree) : Prop := t = t0 \/ exists y : list point, t = fill y t0 1 true.
+
+Lemma based_on_fill t0 t (x : list point) : based_on t0 t -> fill x t 1 true = fill x t0 1 true.
+Proof. intros [->|[y ->]]; [reflexivity | apply fill_reset_absorb]. Qed.
+
+(** counts and divergence of the reference tree filled with one batch *)
+Lemma filled_batch (ref x : list point) :
+  let t0 := fst (kbuild trunc p ref) in
+  let t := fill x t0 1 true in
+  lcounts 0 t = lcounts 0 t0 /\ lcounts 1 t = leaf_arrivals x t0 /\
+  (leaves t0 <> [] ->
+   divergence kl t = Some (kl (distn (lcounts 0 t0)) (distn (leaf_arrivals x t0)))).
+Proof.
+  intros t0 t. destruct (kbuild_ids trunc p ref) as [H0 _]. fold t0 in H0.
+  assert (E0 : lcounts 0 t = lcounts 0 t0).
+  { unfold lcounts, t. rewrite leaf_counts_fill_other by discriminate. reflexivity. }
+  assert (E1 : lcounts 1 t = leaf_arrivals x t0) by (unfold t; rewrite lcounts_odflt; apply leaf_counts_fill_reset).
+  split; [exact E0|]. split; [exact E1|]. intros Hne.
+  unfold divergence. rewrite kl_distance_counts.
+  - rewrite E0, E1. reflexivity.
+  - apply leaves_fill_nonempty. exact Hne.
+  - apply fill_has_id_other. exact H0.
+  - apply fill_has_id.
+Qed.
+
+(** ---------- well-formed states: a drift state always holds the drifted batch ---------- *)
+Definition kb_wf (s : kbatch N) : Prop :=
+  (b_ds s = DDrift -> b_refdata s <> None) /\ b_ds s <> DWarn.
+
+Lemma kb_init_wf : kb_wf kb_init.
+Proof. split; simpl; discriminate. Qed.
+
+Lemma isr_wf s x : kb_wf (isr s x).
+Proof. split; simpl; discriminate. Qed.
+
+Lemma wf_nodrift s : kb_wf s -> is_drift (b_ds s) = false -> b_ds s = DNone.
+Proof. intros [_ H] Hd. destruct (b_ds s); [reflexivity | contradiction | discriminate]. Qed.
+
+(** the state the body of update() starts from *)
+Definition bpre (s : kbatch N) (x : bx N) : kbatch N :=
+  if is_drift (b_ds s)
+  then match b_refdata s with Some r => isr s (r, snd x) | None => s end
+  else s.
+
+Lemma bpre_none s x : kb_wf s -> b_ds (bpre s x) = DNone.
+Proof.
+  intros Hw. unfold bpre. destruct (is_drift (b_ds s)) eqn:Hd; [|apply wf_nodrift; assumption].
+  destruct (b_refdata s) eqn:Er; [reflexivity|].
+  destruct Hw as [H _]. destruct (b_ds s); try discriminate. exfalso. apply H; [reflexivity | exact Er].
+Qed.
+
+Lemma bupd_eq s x :
+  bupd s x =
+  let s0 := bpre s x in
+  match b_tree s0 with
+  | None => isr (mk_kb (b_total s0 + 1) (b_since s0 + 1) (b_ds s0) None (b_crit s0) (b_tdist s0)
+                       (b_refdata s0) (b_oof s0) (b_bootq s0)) x
+  | Some t =>
+      let t' := fill (fst x) t 1 true in
+      if above (b_crit s0) (divergence kl t')
+      then mk_kb (b_total s0 + 1) (b_since s0 + 1) DDrift (Some t') (b_crit s0) (divergence kl t')
+                 (Some (fst x)) (b_oof s0) (b_bootq s0)
+      else mk_kb (b_total s0 + 1) (b_since s0 + 1) (b_ds s0) (Some t') (b_crit s0) (divergence kl t')
+                 (b_refdata s0) (b_oof s0) (b_bootq s0)
+  end.
+Proof. reflexivity. Qed.
+
+Lemma bupd_wf s x : kb_wf s -> kb_wf (bupd s x).
+Proof.
+  intros Hw. rewrite bupd_eq. cbv zeta. pose proof (bpre_none s x Hw) as Hn.
+  destruct (b_tree (bpre s x)); [|apply isr_wf].
+  destruct (above _ _); split; simpl; try discriminate; rewrite Hn; discriminate.
+Qed.
+
+Lemma bapp_wf s o : kb_wf s -> kb_wf (bapp s o).
+Proof. intros Hw. destruct o; [apply isr_wf | apply bupd_wf; exact Hw]. Qed.
+
+Lemma brun_wf : forall ops s, kb_wf s -> kb_wf (brun s ops).
+Proof.
+  induction ops as [|o ops IH]; intros s Hw; [exact Hw|]. unfold kb_run in *. simpl. apply IH. apply bapp_wf. exact Hw.
+Qed.
+
+(** ---------- counters ---------- *)
+Lemma bpre_total s x : b_total (bpre s x) = b_total s.
+Proof. unfold bpre. destruct (is_drift (b_ds s)); [destruct (b_refdata s)|]; reflexivity. Qed.
+
+Lemma bupd_total s x : b_total (bupd s x) = (b_total s + 1)%Z.
+Proof.
+  rewrite bupd_eq. cbv zeta. rewrite <- (bpre_total s x).
+  destruct (b_tree (bpre s x)); [destruct (above _ _)|]; reflexivity.
+Qed.
+
+Lemma isr_total s x : b_total (isr s x) = b_total s.
+Proof. reflexivity. Qed.
+
+Definition nupdates (ops : list (bop N)) : Z :=
+  len (filter (fun o => match o with BUpdate _ => true | BSetRef _ => false end) ops).
+
+Lemma brun_total : forall ops s, b_total (brun s ops) = (b_total s + nupdates ops)%Z.
+Proof.
+  induction ops as [|o ops IH]; intros s; unfold nupdates, len in *; simpl; [lia|].
+  unfold kb_run in *. simpl. rewrite IH. destruct o; simpl; [lia|]. rewrite bupd_total. lia.
+Qed.
+
+(** batches_since_reset: 0 after set_reference and after the first update of a detector without
+    reference (the reset inside _inner_set_reference comes after the increment); 1 after the
+    update that follows a drift; + 1 otherwise *)
+Lemma bupd_since s x : kb_wf s ->
+  b_since (bupd s x) =
+  if is_drift (b_ds s) then 1%Z
+  else match b_tree s with None => 0%Z | Some _ => (b_since s + 1)%Z end.
+Proof.
+  intros Hw. rewrite bupd_eq. cbv zeta. unfold bpre.
+  destruct (is_drift (b_ds s)) eqn:Hd.
+  - destruct (b_refdata s) eqn:Er.
+    + cbn [b_tree kb_inner_set_reference b_since b_crit]. destruct (above _ _); reflexivity.
+    + destruct Hw as [H _]. destruct (b_ds s); try discriminate. exfalso. apply H; [reflexivity | exact Er].
+  - destruct (b_tree s); [destruct (above _ _)|]; reflexivity.
+Qed.
+
+Lemma brun_since_bounds : forall ops s, kb_wf s -> (0 <= b_since s <= b_total s)%Z ->
+  (0 <= b_since (brun s ops) <= b_total (brun s ops))%Z.
+Proof.
+  induction ops as [|o ops IH]; intros s Hw Hb; [exact Hb|]. unfold kb_run in *. simpl.
+  apply IH; [apply bapp_wf; exact Hw|]. destruct o as [x|x].
+  - simpl. lia.
+  - cbn [kb_apply]. rewrite (bupd_since s x Hw), bupd_total.
+    destruct (is_drift (b_ds s)); [lia|]. destruct (b_tree s); lia.
+Qed.
+
+(** ---------- which reference is in force ---------- *)
+Definition next_ref (s : kbatch N) (cur : option (list point * list F)) (o : bop N)
+  : option (list point * list F) :=
+  match o with
+  | BSetRef x => Some x
+  | BUpdate x =>
+      if is_drift (b_ds s)
+      then match b_refdata s with Some r => Some (r, snd x) | None => cur end
+      else match cur with None => Some x | Some c => Some c end
+  end.
+
+Fixpoint cur_ref (s : kbatch N) (cur : option (list point * list F)) (ops : list (bop N))
+  : option (list point * list F) :=
+  match ops with
+  | [] => cur
+  | o :: t => cur_ref (bapp s o) (next_ref s cur o) t
+  end.
+
+Definition binv (s : kbatch N) (cur : option (list point * list F)) : Prop :=
+  kb_wf s /\
+  match cur with
+  | None => b_tree s = None /\ b_ds s = DNone
+  | Some (R, B) =>
+      let b := kbuild trunc p R in
+      exists t, b_tree s = Some t /\ based_on (fst b) t /\ b_crit s = crit_of B /\
+                b_oof s = snd b /\ b_bootq s = Some (lcounts 0 (fst b), zsum (lcounts 0 (fst b)))
+  end.
+
+Lemma binv_init : binv kb_init None.
+Proof. split; [apply kb_init_wf | split; reflexivity]. Qed.
+
+Lemma binv_isr s x : binv (isr s x) (Some x).
+Proof.
+  split; [apply isr_wf|]. destruct x as [R B]. cbv zeta. eexists. split; [reflexivity|].
+  split; [left; reflexivity|]. repeat split.
+Qed.
+
+Lemma binv_step s cur o : binv s cur -> binv (bapp s o) (next_ref s cur o).
+Proof.
+  intros [Hw Hc]. destruct o as [x|x]; [apply binv_isr|].
+  cbn [kb_apply next_ref]. split; [apply bupd_wf; exact Hw|].
+  rewrite bupd_eq. cbv zeta. unfold bpre.
+  destruct (is_drift (b_ds s)) eqn:Hd.
+  - (* after a drift: the drifted batch is adopted *)
+    destruct (b_refdata s) as [r|] eqn:Er.
+    + cbn [b_tree kb_inner_set_reference b_crit b_total b_since b_ds b_tdist b_refdata b_oof b_bootq].
+      destruct (above _ _); eexists; (split; [reflexivity|]); (split; [right; eexists; reflexivity|]); repeat split.
+    + destruct Hw as [H _]. destruct (b_ds s); try discriminate. exfalso. apply H; [reflexivity | exact Er].
+  - destruct cur as [[R B]|].
+    + destruct Hc as (t & Ht & Hb & Hcr & Ho & Hq). rewrite Ht.
+      cbv zeta. rewrite (based_on_fill _ _ (fst x) Hb).
+      destruct (above _ _); eexists; (split; [reflexivity|]); (split; [right; eexists; reflexivity|]);
+        cbn [b_crit b_oof b_bootq]; repeat split; assumption.
+    + destruct Hc as [Ht _]. rewrite Ht. destruct (binv_isr
+        (mk_kb (b_total s + 1) (b_since s + 1) (b_ds s) None (b_crit s) (b_tdist s) (b_refdata s) (b_oof s) (b_bootq s)) x)
+        as [_ H]. exact H.
+Qed.
+
+(** every reachable state holds the tree of the reference in force (possibly with the counts of the
+    last batch), and the bound computed from the bootstrap list drawn when that reference was built *)
+Lemma binv_run : forall ops s cur, binv s cur -> binv (brun s ops) (cur_ref s cur ops).
+Proof.
+  induction ops as [|o ops IH]; intros s cur H; [exact H|]. unfold kb_run in *. simpl.
+  apply IH. apply binv_step. exact H.
+Qed.
+
+(** ---------- the decision ---------- *)
+Lemma bupd_decide s R B x : binv s (Some (R, B)) -> b_ds s <> DDrift ->
+  let t0 := fst (kbuild trunc p R) in
+  let d := divergence kl (fill (fst x) t0 1 true) in
+  let s' := bupd s x in
+  b_tree s' = Some (fill (fst x) t0 1 true) /\ b_tdist s' = d /\ b_crit s' = crit_of B /\
+  (b_ds s' = DDrift <-> above (crit_of B) d = true) /\
+  (b_ds s' = DDrift -> b_refdata s' = Some (fst x)) /\
+  b_total s' = (b_total s + 1)%Z /\ b_since s' = (b_since s + 1)%Z.
+Proof.
+  intros [Hw (t & Ht & Hb & Hcr & _)] Hnd t0 d s'.
+  assert (Hd : is_drift (b_ds s) = false) by (destruct (b_ds s); try reflexivity; congruence).
+  unfold s'. rewrite bupd_eq. cbv zeta. unfold bpre. rewrite Hd, Ht, Hcr.
+  rewrite (based_on_fill _ _ (fst x) Hb). fold t0. fold d.
+  pose proof (wf_nodrift s Hw Hd) as Hn.
+  destruct (above (crit_of B) d) eqn:Ea; cbn [b_tree b_tdist b_crit b_ds b_refdata b_total b_since];
+    repeat split; try reflexivity; try congruence; try (rewrite Hn; discriminate); intros; discriminate.
+Qed.
+
+(** ... in terms of leaf counts *)
+Lemma bupd_decide_counts s R B x : binv s (Some (R, B)) -> b_ds s <> DDrift ->
+  let t0 := fst (kbuild trunc p R) in
+  leaves t0 <> [] ->
+  let d := kl (distn (lcounts 0 t0)) (distn (leaf_arrivals (fst x) t0)) in
+  let s' := bupd s x in
+  b_tdist s' = Some d /\
+  (b_ds s' = DDrift <-> fltb (critical_value rint (k_alpha p) B) d = true).
+Proof.
+  intros Hi Hnd t0 Hne d s'.
+  destruct (bupd_decide s R B x Hi Hnd) as (_ & Htd & _ & Hds & _).
+  destruct (filled_batch R (fst x)) as (_ & _ & Hdiv). specialize (Hdiv Hne).
+  cbv zeta in *. unfold s', d, t0. rewrite Htd, Hds, Hdiv. split; reflexivity.
+Qed.
+
+(** the update after a drift: the drifted batch becomes the reference, counters restart, and the new
+    batch is judged against it *)
+Lemma bupd_after_drift s r x : kb_wf s -> b_ds s = DDrift -> b_refdata s = Some r ->
+  bupd s x = bupd (isr s (r, snd x)) x.
+Proof.
+  intros Hw Hd Er. rewrite !bupd_eq. cbv zeta. unfold bpre. rewrite Hd, Er. reflexivity.
+Qed.
+
+(** ---------- clean slate: lock-step with a twin that has seen [k] fewer batches ---------- *)
+Definition btwin (k : Z) (a b : kbatch N) : Prop :=
+  b_total a = (b_total b + k)%Z /\ b_since a = b_since b /\ b_ds a = b_ds b /\ b_tree a = b_tree b /\
+  b_crit a = b_crit b /\ b_tdist a = b_tdist b /\ b_oof a = b_oof b /\ b_bootq a = b_bootq b /\
+  (b_ds b = DDrift -> b_refdata a = b_refdata b).
+
+Lemma btwin_isr k a b x : b_total a = (b_total b + k)%Z -> btwin k (isr a x) (isr b x).
+Proof. intros H. unfold btwin. simpl. repeat split; try assumption; discriminate. Qed.
+
+Lemma btwin_step k a b o : btwin k a b -> btwin k (bapp a o) (bapp b o).
+Proof.
+  intros (Ht & Hs & Hd & Htr & Hc & Htd & Ho & Hq & Hr). destruct o as [x|x]; [apply btwin_isr; exact Ht|].
+  cbn [kb_apply]. rewrite !bupd_eq. cbv zeta. unfold bpre. rewrite Hd.
+  destruct (is_drift (b_ds b)) eqn:Edb.
+  - assert (Hdb : b_ds b = DDrift) by (destruct (b_ds b); simpl in Edb; congruence).
+    rewrite (Hr Hdb). destruct (b_refdata b) as [r|] eqn:Erb.
+    + cbn [b_tree kb_inner_set_reference b_crit b_total b_since b_ds b_tdist b_refdata b_oof b_bootq].
+      destruct (above _ _); unfold btwin; simpl; repeat split; try lia; try discriminate; try reflexivity.
+    + rewrite Htr. destruct (b_tree b).
+      * rewrite Hc. destruct (above _ _); unfold btwin; simpl; repeat split; try lia; try assumption; try reflexivity.
+        rewrite Erb. exact Hr.
+      * apply btwin_isr. simpl. lia.
+  - rewrite Htr. destruct (b_tree b).
+    + rewrite Hc. destruct (above _ _); unfold btwin; simpl; repeat split; try lia; try assumption; try reflexivity.
+    + apply btwin_isr. simpl. lia.
+Qed.
+
+Lemma btwin_observe k a b : btwin k a b -> kb_observe a = shift_obs k (kb_observe b).
+Proof.
+  intros (Ht & Hs & Hd & _). unfold kb_observe, shift_obs. simpl. rewrite Ht, Hs, Hd. reflexivity.
+Qed.
+
+Lemma btwin_trace k : forall ops a b, btwin k a b -> btrace a ops = map (shift_obs k) (btrace b ops).
+Proof.
+  induction ops as [|o ops IH]; intros a b H; simpl; [reflexivity|].
+  pose proof (btwin_step k a b o H) as H'. rewrite (btwin_observe k _ _ H'). f_equal. apply IH. exact H'.
+Qed.
+
+(** the divergence, bound and tree of the twin agree as well *)
+Lemma btwin_states k : forall ops a b, btwin k a b -> Forall2 (btwin k) (bstates a ops) (bstates b ops).
+Proof.
+  induction ops as [|o ops IH]; intros a b H; simpl; [constructor|].
+  pose proof (btwin_step k a b o H) as H'. constructor; [exact H' | apply IH; exact H'].
+Qed.
+
+(** after set_reference (explicit, on any state) the future is that of a new detector given the same
+    reference *)
+Lemma clean_slate_set_reference s x ops :
+  btrace (isr s x) ops = map (shift_obs (b_total s)) (btrace (isr kb_init x) ops).
+Proof. apply btwin_trace. apply btwin_isr. simpl. lia. Qed.
+
+(** after a drift the future is that of a new detector whose reference is the drifted batch *)
+Lemma clean_slate_batch s r x ops : kb_wf s -> b_ds s = DDrift -> b_refdata s = Some r ->
+  btrace s (BUpdate x :: ops) =
+  map (shift_obs (b_total s)) (btrace (isr kb_init (r, snd x)) (BUpdate x :: ops)).
+Proof.
+  intros Hw Hd Er. rewrite <- clean_slate_set_reference. simpl.
+  rewrite (bupd_after_drift s r x Hw Hd Er). reflexivity.
+Qed.
+
+(** a reported drift always leaves the drifted batch in ref_data *)
+Lemma bupd_drift_refdata s x : kb_wf s -> b_ds (bupd s x) = DDrift -> b_refdata (bupd s x) = Some (fst x).
+Proof.
+  intros Hw. rewrite bupd_eq. cbv zeta. pose proof (bpre_none s x Hw) as Hn.
+  destruct (b_tree (bpre s x)); [|simpl; discriminate].
+  destruct (above _ _); simpl; [reflexivity | rewrite Hn; discriminate].
+Qed.
+
+(** the update that follows a drift, spelled out *)
+Lemma bupd_after_drift_state s r x : kb_wf s -> b_ds s = DDrift -> b_refdata s = Some r ->
+  let t0 := fst (kbuild trunc p r) in
+  let d := divergence kl (fill (fst x) t0 1 true) in
+  let s' := bupd s x in
+  b_tree s' = Some (fill (fst x) t0 1 true) /\ b_tdist s' = d /\ b_crit s' = crit_of (snd x) /\
+  (b_ds s' = DDrift <-> above (crit_of (snd x)) d = true) /\
+  b_total s' = (b_total s + 1)%Z /\ b_since s' = 1%Z.
+Proof.
+  intros Hw Hd Er. cbv zeta. rewrite (bupd_after_drift s r x Hw Hd Er).
+  destruct (bupd_decide (isr s (r, snd x)) r (snd x) x (binv_isr s (r, snd x)) ltac:(simpl; discriminate))
+    as (A & B & C & D & _ & E & G).
+  repeat split; try assumption; apply D.
+Qed.
+
+End Batch.
